@@ -1,1 +1,2 @@
 pub mod lexref;
+pub mod ppref;
